@@ -5,10 +5,30 @@
   through `Hooks` (SimVerif/Drv/Kernel.lean).
 -/
 import SimVerif.Basic
+import SimVerif.HttpProxy
 
 namespace SimVerif.Drv
 
+/-- which callback of `http_proxy` a handler id stands for -/
+inductive PxCb where
+  | accept | readReq (off : Nat) | lookup | connected | serverWrite | serverRecv | serverFwd | errWritten
+  deriving DecidableEq, Repr
+
+/-- one `sim::http_proxy` object of a scenario (`x<k>`) -/
+structure PxInst where
+  node : String
+  px   : SimVerif.HttpProxy.Px := {}
+  dead : Bool := false            -- destroyed: a callback that still arrives runs on freed memory
+
+/-- the HTTP proxies of a scenario: objects, outstanding operations (handler id ↦ object, callback),
+    number of handler ids handed out -/
+structure PxExt where
+  objs : List (String × PxInst) := []
+  ops  : List (Nat × String × PxCb) := []
+  next : Nat := 0
+
 structure ExtSt where
   unused : Unit := ()
+  proxy : PxExt := {}
 
 end SimVerif.Drv
